@@ -1034,6 +1034,8 @@ impl PhysicalPlanner {
                 self.try_extract_parquet_source(&node.input)
             {
                 // Use morsel-driven parallel aggregation
+                #[cfg(feature = "verif-hooks")]
+                crate::verif_hooks::mark("agg.morsel");
                 let morsel_agg = MorselAggregateExec::new(
                     files,
                     input_schema,
@@ -1149,6 +1151,8 @@ impl PhysicalPlanner {
                 });
                 if filter_streams && !self.scan_cache.borrow().contains_key(&node.table_name) {
                     if let Some(files) = provider.parquet_files() {
+                        #[cfg(feature = "verif-hooks")]
+                        crate::verif_hooks::mark("scan.streaming");
                         let exec = crate::physical::operators::StreamingParquetScanExec::try_new(
                             &node.table_name,
                             &files,
@@ -1173,6 +1177,8 @@ impl PhysicalPlanner {
                     cache.get(&node.table_name)
                 {
                     // Cache hit: project from cached union-projected scan
+                    #[cfg(feature = "verif-hooks")]
+                    crate::verif_hooks::mark("scan.prescan_cache");
                     let batches = if let Some(ref requested_indices) = node.projection {
                         // Map requested projection indices to positions in cached batches
                         // Cached batches use union projection indices
@@ -1242,6 +1248,8 @@ impl PhysicalPlanner {
                 } else {
                     // No cache: use scan_with_filter for Parquet row group pruning
                     drop(cache);
+                    #[cfg(feature = "verif-hooks")]
+                    crate::verif_hooks::mark("scan.eager");
                     let batches = provider
                         .scan_with_filter(node.projection.as_deref(), node.filter.as_ref())?;
                     let schema = match &node.projection {
